@@ -662,6 +662,89 @@ def gen_saveload(rng, k):
     return "L %s %s %s" % (rbytes(rng, n) if n else "-", rbytes(rng, pre) if pre else "-", " ".join(faults))
 
 
+# ------------------------------------------------------------------ generators aimed at the case splits of the whole-body proofs
+ALIGN2 = [1, 2, 4, 8, 16, 32, 64, 128, 256, 1024, 4096, 3, 5, 6, 7, 12, 24, 100, 255, 1000]
+
+
+def gen_view_edge(rng):
+    """view-backed sink, element size > 1: writes that END INSIDE the last element of the view, exactly at its end, or one byte /
+    one element behind it (the rounded count against SC_ARRAY_BYTE_ALLOC); append over old content that is a whole number of elements"""
+    esz = rng.choice([2, 3, 4, 5, 7, 8, 13, 16])
+    cap = rng.randrange(1, 6)
+    mode = rng.choice("wa")
+    oldn = rng.randrange(0, cap + 1) * esz
+    old = bytes(rng.randrange(256) for _ in range(oldn))
+    clen = oldn if mode == "a" else 0
+    room = cap * esz - clen
+    ops = []
+    # first fill up to somewhere inside the last element
+    if room > esz and rng.random() < 0.7:
+        n = room - rng.randrange(1, esz + 1)
+        ops.append("w:" + rbytes(rng, n))
+        clen += n
+        if rng.random() < 0.3:
+            ops.append(rng.choice(["c", "C:1", "C:2"]))
+    room = cap * esz - clen
+    n = rng.choice([max(room - 1, 0), room, room, room + 1, room + esz - 1, room + esz, max(room - esz + 1, 0)])
+    if rng.random() < 0.3 and room > 0:
+        al = rng.choice(ALIGN2)
+        ops.append("a:%d" % al)
+    else:
+        ops.append("w:" + rbytes(rng, n))
+    return "K v %s %d %s %d %s d" % (mode, esz, enc(old), cap, " ".join(ops))
+
+
+def gen_periods_sink(rng):
+    """several completion periods on one growable sink: write / align (every power of two and non powers) / complete, many rounds"""
+    dev = rng.choice("bbbnf")
+    esz = rng.choice([1, 2, 3, 4, 8]) if dev == "b" else 0
+    mode = rng.choice("wa")
+    old = bytes(rng.randrange(256) for _ in range(rng.choice([0, 1, 2]) * (esz or 3)))
+    ops = []
+    for _ in range(rng.randrange(2, 7)):
+        for _ in range(rng.randrange(0, 3)):
+            ops.append("w:" + rbytes(rng, rng.choice([0, 1, 2, 3, 5, 8, 13, (esz or 4), (esz or 4) - 1 or 1])))
+            if rng.random() < 0.5:
+                ops.append("a:%d" % rng.choice(ALIGN2))
+        ops.append(rng.choice(["c", "c", "C:0", "C:1", "C:2", "C:3"]))
+    return "K %s %s %d %s 0 %s d" % (dev, mode, esz, enc(old), " ".join(ops))
+
+
+def gen_periods_source(rng):
+    """several completion periods on one source with skips before / after aligns: counted and exact reads, skips, aligns with powers
+    of two and non powers, completions; the content is sized afterwards so that the history ends exactly at / before the end"""
+    dev = rng.choice("bbvnnff")
+    esz = rng.choice([1, 2, 3, 4, 8]) if dev in "bv" else 1
+    start = rng.choice([0, 1, 5]) if dev == "f" else 0
+    pos = start
+    cout = 0
+    ops = []
+    if dev in "nf" and rng.random() < 0.4:
+        ops.append("m")
+    for _ in range(rng.randrange(2, 6)):
+        for _ in range(rng.randrange(1, 4)):
+            k = rng.choice([0, 1, 2, 3, 4, 7, 9, esz])
+            kind = rng.choice(["s", "t", "a", "r", "x", "s", "a"])
+            if kind == "a":
+                al = rng.choice(ALIGN2[:14])
+                k = (al - cout % al) % al
+                ops.append("a:%d" % al)
+            else:
+                ops.append("%s:%d" % (kind, k))
+            pos += k
+            cout += k
+        ops.append(rng.choice(["c", "c", "C:0", "C:1", "C:2", "C:3"]))
+        if dev in "nf" or pos % esz == 0:
+            cout = 0
+        if "m" in ops and rng.random() < 0.3:
+            ops.append(rng.choice(["M", "N"]) + ":%d" % rng.choice([0, 1, pos, pos + 1]))
+    total = pos + rng.choice([0, 0, 1, esz, 10])
+    if dev in "bv":
+        total = ceil_div(total, esz) * esz
+    return "R %s %d %s %s d" % (dev, esz if dev in "bv" else start, rbytes(rng, total), " ".join(ops))
+
+
+TARGETED = {}
 FIXED = [
     # the repaired defect 26496c1: append to an array starts behind the existing content
     "K b a 1 616263 0 w:5859 d",
@@ -702,6 +785,16 @@ def gen_cases(ctx):
         cases.append(gen_source(rng, big=(i % 30 == 0), resize=(i % 40 == 7)))
     for k in range(nl):
         cases.append(gen_saveload(rng, k))
+    # aimed at the case splits of the whole-body proofs (IoWhole.v) and of the history theorems (IoHistories.v)
+    nv, nps, npr = (600, 500, 700) if ctx.quick else (12000, 10000, 14000)
+    global TARGETED
+    TARGETED = {"view_edge": nv, "periods_sink": nps, "periods_source": npr}
+    for _ in range(nv):
+        cases.append(gen_view_edge(rng))
+    for _ in range(nps):
+        cases.append(gen_periods_sink(rng))
+    for _ in range(npr):
+        cases.append(gen_periods_source(rng))
     return cases
 
 
@@ -839,6 +932,9 @@ def run(ctx):
                        "around multiples of the 16384 window with faults; a case is non-trivial if it has at least two operations; distinct = distinct case lines")
     ctx.cov["exhaustive"] = False
     ctx.notes["case_distribution"] = dist
+    ctx.notes["targeted_generators"] = dict(TARGETED, note="view_edge: views of element size 2..16 whose last write ends inside / at / one byte or one element "
+                                            "behind the last element; periods_*: 2..6 completion periods with aligns from " + str(ALIGN2) +
+                                            " and skips before / after aligns, content sized so that the history ends at or before the end")
     ctx.notes["oracle_violations"] = nbad
     ctx.notes["model_disagreements"] = ndis
     ctx.notes["memory_end"] = end
@@ -847,6 +943,12 @@ def run(ctx):
     ctx.cov["trusted_base"] += ["T1: the integer decisions of the model (rounding to whole elements and size check of sc_io_sink_write, counters, AGAIN tests, alignment fill, available / taken "
                                 "bytes and exact-request test of sc_io_source_read, window arithmetic of sc_io_file_load) are proved EQUAL to Gen/IoC11.v, regenerated from the working tree on "
                                 "every run (tools/c2g + clang-14 JSON AST trusted; validated through the model they are proved equal to, which the correspondence run executes)",
+                                "T1 whole bodies: every function of the sinks and sources (new / write / complete / align / destroy / destroy_null of both kinds, read, activate_mirror, "
+                                "read_mirror, file_return, file_save, the three parts of file_load) is translated as a whole by the add-on class IoT of tools/c2g/groups_C11.py (calls as effects "
+                                "with ghost outputs, also inside `||` / `if (f ())` / `return f ()` / assignments used as values; enumerators printed by a C program compiled against the same "
+                                "headers; va_arg = the next variadic argument; SC_ALLOC_ZERO leaves every field 0) and coq/C11/IoWhole.v proves the model equal to the READING rd_<function> of the "
+                                "generated outputs; the reading functions (which array operation sc_array_resize / memcpy is, what fread / fwrite / fseek do to a file given their return value) "
+                                "are hand-written and part of the trusted base together with the add-on",
                                 "stdio contract of the model: fwrite/fread/fflush/fseek/fclose do what is asked unless the case injects a fault "
                                 "(the harness injects the same faults into the real calls with ld --wrap)",
                                 "size_t arithmetic of sc_io.c is modelled without wrap-around (byte counts below 2^63)",
